@@ -5,6 +5,8 @@ LISTLIKE = (list, tuple, set, frozenset)
 SCALARS = (int, float, str, bool, type(None))
 _digits = re.compile(r'\d+')
 
+_NOHIT = object()
+
 
 class Limits:
     def __init__(self, max_string_length=1024, max_collection_size=10, max_var_depth=5, max_variables=1000):
@@ -117,7 +119,7 @@ def compare_var(var_lookup, vid, value, limits, path, depth, budget_hit=False, s
         # each reported child must be a true reading of some distinct element
         pool = list(elems)
         for c in got:
-            hit = None
+            hit = _NOHIT
             for e in pool:
                 try:
                     compare_var(var_lookup, c.vid, e, limits, path + ['{%s}' % c.name], depth + 1, True, dict(seen))
@@ -125,9 +127,9 @@ def compare_var(var_lookup, vid, value, limits, path, depth, budget_hit=False, s
                     break
                 except Mismatch:
                     continue
-            if hit is None:
+            if hit is _NOHIT:
                 raise Mismatch('set-child-not-an-element', path + ['{%s}' % c.name])
-            pool.remove(hit)
+            pool = [x for x in pool if x is not hit] + [x for x in pool if x is hit][1:]
         return
     expected = kids
     if type(value) in (list, tuple) or isinstance(value, Exception):
